@@ -129,7 +129,8 @@ Inductive op :=
 | OGet (c k : N)
 | OSearch (c : N) (q : vec) (k : N)
 | OSearchMetric (q : vec) (k m : N)
-| OSearchFiltered (c : N) (q : vec) (k b strat : N).   (* filter: metadata field "tag" = b; strat 0 auto, 1 pre, 2 post *)
+| OSearchFiltered (c : N) (q : vec) (k b strat ovs : N).
+    (* filter: metadata field "tag" = b; strat 0 auto, 1 pre, 2 post; ovs = FilteredSearchConfig::oversample_factor *)
 
 (* which path a search takes *)
 Inductive path :=
@@ -271,7 +272,7 @@ Definition step (s : st) (o : op) : st * out :=
       (s, match aget (data (cget s c)) k with Some v => RVec v | None => RErr E_NOTFOUND end)
   | OSearch _ _ _ => (s, RUnit)          (* outputs of searches are characterised through search_path *)
   | OSearchMetric _ _ _ => (s, RUnit)
-  | OSearchFiltered _ _ _ _ _ => (s, RUnit)
+  | OSearchFiltered _ _ _ _ _ _ => (s, RUnit)
   end.
 
 (* --- metadata (only the one field the filtered searches of the correspondence runs look at) ---
@@ -306,15 +307,17 @@ Inductive fpath :=
 | FEmpty
 | FExact (m : list (N * vec))                                   (* exact search over the matching vectors *)
 | FCachedOrExact (snap m : list (N * vec))                      (* candidates from the cached index; or the exact fallback *)
-| FPostNoFallback (d m : list (N * vec))                        (* first k matching of the exact top 3k; nothing else *)
+| FPostNoFallback (n : N) (d m : list (N * vec))                (* first k matching of the exact top n; nothing else *)
 | FPostCached (snap m : list (N * vec))
 | FPanic.
 
 Variable post_fallback : bool.   (* does post-filtering fall back to the exact filtered search when it comes up short *)
 
-(* search_similar_filtered / search_filtered_in_collection with the default FilteredSearchConfig
-   values (selectivity threshold 1/10 over a sample of up to 100 keys, oversample factor 3) *)
-Definition filtered_path (s : st) (t : tags) (c : N) (q : vec) (k b strat : N) : fpath :=
+(* search_similar_filtered / search_filtered_in_collection with the default selectivity threshold
+   (1/10 over a sample of up to 100 keys) and oversample factor ovs:
+   oversample_k = top_k.saturating_mul(oversample_factor).max(top_k) *)
+Definition oversample_k (k ovs : N) : N := N.max (k * ovs) k.
+Definition filtered_path (s : st) (t : tags) (c : N) (q : vec) (k b strat ovs : N) : fpath :=
   match q with
   | [] => FErr E_EMPTY
   | _ =>
@@ -329,9 +332,9 @@ Definition filtered_path (s : st) (t : tags) (c : N) (q : vec) (k b strat : N) :
                     then (if N.eqb cnt 0 then 2 else if N.ltb (10 * N.of_nat (length m)) cnt then 1 else 2)
                     else strat in
       if N.eqb chosen 1 then FExact m
-      else match search_path s c q (3 * k) with
+      else match search_path s c q (oversample_k k ovs) with
            | PCached snap => if post_fallback then FCachedOrExact snap m else FPostCached snap m
-           | PExact _ d' => if post_fallback then FExact m else FPostNoFallback d' m
+           | PExact _ d' => if post_fallback then FExact m else FPostNoFallback (oversample_k k ovs) d' m
            | PEmpty => FEmpty
            | PErr e => FErr e
            | PPanic => FPanic
